@@ -16,10 +16,22 @@ pre  := V=<id:app:prod:in:out:int:fee:intAfterAccrual>… C= O=<key:off>… VB= 
         TL=/TB=<pool·2³²+asset:total>… PT=<product:minted:locked>…
 post := V=<ids,> C= O= VB= AB= LID= AID= NL=<id:orig:app:amt:isBorrow:debt:target:fee:bonus:cr:collToBeAuctioned>…
         NA=<id:locked:asset:amt:target>… PB= BL=<ids,> LS= TL= TB= PT=
+  liq.msgb   <borrow id> <pre…> => <ok|err|panic> <post…>          generation-1 MsgLiquidateBorrow
+  liq.ext    <app> <collAsset> <debtAsset> <collAmt> <debtAmt> <senderBalance> <pre…> => <res> <post…>   MsgLiquidateExternalKeeper
+  liq.reserve <app> <asset> <denomOk> <amt> <senderBalance> <pre…> => <res> <post…>                     MsgAppReserveFunds
+  liq.batch  <n> <ok|panic>                                         SetParams(batch) between blocks (0 is rejected by the validator)
+APP has two more flags (english2, lendAuc1), env has AP2=<penalty:bonus|->, borrows 4 more fields (ltv, ltvFirst, ltvSecond, epen),
+pre/post LAID= (lend auction id) RB= (x/lend reserve account) AR= (app reserve funds) LQ= (x/liquidationsV2 account); NL has a 12th
+field (IsInternalKeeper), NA a 6th (AuctionType).
 Monitors (on REAL pre/post): safe_never_seized, slice_bounds, seized_within_bound, seized_within_two_sweeps (D9: the
 property's literal bound, reported under this name only while model and code have agreed on every line of the sequence;
 after a divergence it is `seized_late_after_divergence`), gen1_app3_offset_collision (generation 1, vault app id =
-lendtypes.AppID: both liveness monitors are reported under this name), seize_exact_collateral, one_auction, store_order. -/
+lendtypes.AppID: both liveness monitors are reported under this name), seize_exact_collateral, one_auction, store_order,
+auction_type (generation 2: the auction opened for a seizure is Dutch iff the app has Dutch activated, English only when English
+is activated; nothing seized when neither is), gen1_msg_borrow_ignores_emode (a generation-1 MsgLiquidateBorrow flagged a borrow
+of an e-mode pair that is safe under the e-mode threshold), external_keeper_isolated (MsgLiquidateExternalKeeper / MsgAppReserveFunds
+touch no vault, no borrow, no vault or pool custody; exactly one locked vault + one Dutch auction over exactly the delivered collateral),
+batch_validated (a zero batch size is rejected). -/
 -- DRIVER: prefix=liq ns=Comdex.Drv.Liquidation
 namespace Comdex.Drv.Liquidation
 open Comdex Comdex.Liquidation Comdex.Line
@@ -61,6 +73,8 @@ def parseProduct (s : String) : Option Product :=
 def parseApp (s : String) : Option App :=
   match s.splitOn ":" with
   | [i, e, k, w2, d2, w1, a1] => some { id := nat! i, esm := bool! e, kill := bool! k, wl2 := bool! w2, dutch2 := bool! d2, wl1 := bool! w1, auc1 := bool! a1 }
+  | [i, e, k, w2, d2, w1, a1, e2, la] => some { id := nat! i, esm := bool! e, kill := bool! k, wl2 := bool! w2, dutch2 := bool! d2, wl1 := bool! w1, auc1 := bool! a1,
+                                                english2 := bool! e2, lendAuc1 := bool! la }
   | _ => none
 def parseVault (s : String) : Option Vault :=
   match s.splitOn ":" with
@@ -74,6 +88,13 @@ def parseBorrow (s : String) : Option Borrow :=
            bridgedAmount := int! ba, bridgedAsset := nat! bas, firstTransit := nat! t1, secondTransit := nat! t2,
            liquidated := bool! lq, emode := bool! em, lt := int! lt, elt := int! elt, ltFirst := int! l1, ltSecond := int! l2,
            pen := int! pen, bon := int! bon, cAsset := nat! ca, lendId := nat! li, outPool := nat! op }
+  | [i, a, p, ai, ao, am, pr, ip, ba, bas, t1, t2, lq, em, lt, elt, l1, l2, pen, bon, ca, li, op, ltv, ltv1, ltv2, epen] =>
+    some { id := nat! i, app := nat! a, pool := nat! p, assetIn := nat! ai, assetOut := nat! ao, amountIn := int! am,
+           principal := int! pr, interestPost := int! ip,
+           bridgedAmount := int! ba, bridgedAsset := nat! bas, firstTransit := nat! t1, secondTransit := nat! t2,
+           liquidated := bool! lq, emode := bool! em, lt := int! lt, elt := int! elt, ltFirst := int! l1, ltSecond := int! l2,
+           pen := int! pen, bon := int! bon, cAsset := nat! ca, lendId := nat! li, outPool := nat! op,
+           ltv := int! ltv, ltvFirst := int! ltv1, ltvSecond := int! ltv2, epen := int! epen }
   | _ => none
 def parsePair (s : String) : Option (Nat × Int) :=
   match s.splitOn ":" with
@@ -86,10 +107,12 @@ def parseOff (s : String) : Option (Nat × Nat) :=
 def parseLocked (s : String) : Option Locked :=
   match s.splitOn ":" with
   | [i, o, a, am, b, d, t, f, bo, cr, cv] => some { id := nat! i, orig := nat! o, app := nat! a, amountIn := int! am, isBorrow := bool! b, debt := int! d, target := int! t, fee := int! f, bonus := int! bo, cr := int! cr, collValue := int! cv }
+  | [i, o, a, am, b, d, t, f, bo, cr, cv, ik] => some { id := nat! i, orig := nat! o, app := nat! a, amountIn := int! am, isBorrow := bool! b, debt := int! d, target := int! t, fee := int! f, bonus := int! bo, cr := int! cr, collValue := int! cv, viaMsg := bool! ik }
   | _ => none
 def parseAuction (s : String) : Option Auction :=
   match s.splitOn ":" with
   | [i, l, a, am, t] => some { id := nat! i, locked := nat! l, asset := nat! a, amount := int! am, target := int! t }
+  | [i, l, a, am, t, d] => some { id := nat! i, locked := nat! l, asset := nat! a, amount := int! am, target := int! t, dutch := bool! d }
   | _ => none
 
 def fld (fs : List String) (k : String) : String := (field? fs k).getD ""
@@ -98,7 +121,10 @@ def parseEnv (fs : List String) : Option Env := do
   let a ← (items (fld fs "A") ";").mapM parseAsset
   let p ← (items (fld fs "P") ";").mapM parseProduct
   let ap ← (items (fld fs "APP") ";").mapM parseApp
-  pure { assets := a, products := p, apps := ap }
+  let ap2 : Option (Dec × Dec) := match (fld fs "AP2").splitOn ":" with
+    | [x, y] => some (int! x, int! y)
+    | _ => none
+  pure { assets := a, products := p, apps := ap, aucParams2 := ap2 }
 
 def parsePre (fs : List String) : Option World := do
   let v ← (items (fld fs "V") ";").mapM parseVault
@@ -110,7 +136,11 @@ def parsePre (fs : List String) : Option World := do
   let ls ← (items (fld fs "LS") ";").mapM parsePair
   let tl ← (items (fld fs "TL") ";").mapM parsePair
   let tb ← (items (fld fs "TB") ";").mapM parsePair
-  pure { lendBal := ls, totalLend := tl, totalBorrowed := tb, vaults := v, counter := nat! (fld fs "C"), offsets := o, vaultBal := vb, auctionBal := ab, poolBal := pb,
+  let rb ← (items (fld fs "RB") ";").mapM parsePair
+  let ar ← (items (fld fs "AR") ";").mapM parsePair
+  let lq ← (items (fld fs "LQ") ";").mapM parsePair
+  pure { lendAuctionId := nat! (fld fs "LAID"), reserveBal := rb, appReserve := ar, liqBal := lq,
+         lendBal := ls, totalLend := tl, totalBorrowed := tb, vaults := v, counter := nat! (fld fs "C"), offsets := o, vaultBal := vb, auctionBal := ab, poolBal := pb,
          lockedId := nat! (fld fs "LID"), auctionId := nat! (fld fs "AID"), borrows := b }
 
 structure Post where
@@ -129,6 +159,10 @@ structure Post where
   tl : Bal
   tb : Bal
   pt : String
+  lendAuctionId : Nat := 0
+  rb : Bal := []
+  ar : Bal := []
+  lq : Bal := []
 
 def insertBy {α} (key : α → Nat) (x : α) : List α → List α
   | [] => [x]
@@ -145,12 +179,15 @@ def parsePost (fs : List String) : Option Post := do
   let ls ← (items (fld fs "LS") ";").mapM parsePair
   let tl ← (items (fld fs "TL") ";").mapM parsePair
   let tb ← (items (fld fs "TB") ";").mapM parsePair
-  pure { ls := sortBy (·.1) ls, tl := sortBy (·.1) tl, tb := sortBy (·.1) tb, pt := fld fs "PT", ids := (items (fld fs "V") ",").map nat!, counter := nat! (fld fs "C"), offsets := o, vaultBal := vb, auctionBal := ab, poolBal := pb,
-         lockedId := nat! (fld fs "LID"), auctionId := nat! (fld fs "AID"), nl := sortBy (·.id) nl, na := sortBy (·.id) na,
+  let rb ← (items (fld fs "RB") ";").mapM parsePair
+  let ar ← (items (fld fs "AR") ";").mapM parsePair
+  let lq ← (items (fld fs "LQ") ";").mapM parsePair
+  pure { lendAuctionId := nat! (fld fs "LAID"), rb := rb, ar := sortBy (·.1) ar, lq := lq, ls := sortBy (·.1) ls, tl := sortBy (·.1) tl, tb := sortBy (·.1) tb, pt := fld fs "PT", ids := (items (fld fs "V") ",").map nat!, counter := nat! (fld fs "C"), offsets := o, vaultBal := vb, auctionBal := ab, poolBal := pb,
+         lockedId := nat! (fld fs "LID"), auctionId := nat! (fld fs "AID"), nl := sortBy (·.id) nl, na := sortBy (·.locked) na,
          bl := (items (fld fs "BL") ",").map nat! }
 
 def postOf (w : World) (pt : String) : Post :=
-  { ls := sortBy (·.1) w.lendBal, tl := sortBy (·.1) w.totalLend, tb := sortBy (·.1) w.totalBorrowed, pt := pt, ids := w.vaults.map (·.id), counter := w.counter, offsets := sortBy (·.1) w.offsets, vaultBal := w.vaultBal, auctionBal := w.auctionBal,
+  { lendAuctionId := w.lendAuctionId, rb := w.reserveBal, ar := sortBy (·.1) w.appReserve, lq := w.liqBal, ls := sortBy (·.1) w.lendBal, tl := sortBy (·.1) w.totalLend, tb := sortBy (·.1) w.totalBorrowed, pt := pt, ids := w.vaults.map (·.id), counter := w.counter, offsets := sortBy (·.1) w.offsets, vaultBal := w.vaultBal, auctionBal := w.auctionBal,
     poolBal := w.poolBal, lockedId := w.lockedId, auctionId := w.auctionId, nl := w.newLocked, na := w.newAuctions,
     bl := (w.borrows.filter (·.liquidated)).map (·.id) }
 
@@ -171,17 +208,24 @@ def diffPost (m r : Post) : Option String :=
   else if m.tl != r.tl then some s!"TL model={m.tl} impl={r.tl}"
   else if m.tb != r.tb then some s!"TB model={m.tb} impl={r.tb}"
   else if m.pt != r.pt then some s!"PT (product totals at hand-over) model={m.pt} impl={r.pt}"
+  else if m.lendAuctionId != r.lendAuctionId then some s!"LAID model={m.lendAuctionId} impl={r.lendAuctionId}"
+  else if m.rb != r.rb then some s!"RB model={m.rb} impl={r.rb}"
+  else if m.ar != r.ar then some s!"AR model={m.ar} impl={r.ar}"
+  else if m.lq != r.lq then some s!"LQ model={m.lq} impl={r.lq}"
   else none
 
 def isAscending : List Nat → Bool
   | a :: b :: t => a < b && isAscending (b :: t)
   | _ => true
 
-/-- safety and seizure-effect monitors on a REAL transition -/
-def effectMonitors (e : Env) (w : World) (r : Post) : List String :=
+/-- safety and seizure-effect monitors on a REAL transition. `gen` = generation; `borrowMsg` = the transition is a
+generation-1 `MsgLiquidateBorrow` (whose known defect — e-mode ignored — is reported under its own name). -/
+def effectMonitors (gen : Nat) (borrowMsg : Bool) (e : Env) (w : World) (r : Post) : List String :=
   let gone := w.vaults.filter (fun v => !r.ids.contains v.id)
   let newB := w.borrows.filter (fun b => !b.liquidated && r.bl.contains b.id)
-  let safe := (gone.any (fun v => !vaultUnsafe e v)) || (newB.any (fun b => !borrowUnsafe e b))
+  let badB := newB.filter (fun b => !borrowUnsafe e b)
+  let emodeOnly := gen == 1 && borrowMsg && !badB.isEmpty && badB.all (fun b => b.emode && borrowUnsafeMsgV1 e b)
+  let safe := (gone.any (fun v => !vaultUnsafe e v)) || (!badB.isEmpty && !emodeOnly)
   let assetOfVault (v : Vault) : Nat := ((e.product? v.prod).map (·.assetIn)).getD 0
   let oneV (v : Vault) : Bool :=
     match r.nl.filter (fun l => l.orig == v.id && !l.isBorrow) with
@@ -192,25 +236,45 @@ def effectMonitors (e : Env) (w : World) (r : Post) : List String :=
     | _ => false
   let oneB (b : Borrow) : Bool :=
     match r.nl.filter (fun l => l.orig == b.id && l.isBorrow) with
-    | [l] => l.amountIn == b.amountIn &&
+    | [l] =>
         (match r.na.filter (fun a => a.locked == l.id) with
-         | [a] => a.amount == b.amountIn && a.asset == b.assetIn && a.target == l.target
+         | [a] => if gen == 2 then l.amountIn == b.amountIn && a.amount == b.amountIn && a.asset == b.assetIn && a.target == l.target
+                  else a.asset == b.assetIn && a.target == l.target && 0 ≤ a.amount && l.amountIn ≤ b.amountIn
          | _ => false)
     | _ => false
   let n := gone.length + newB.length
-  let one := gone.all oneV && newB.all oneB && r.nl.length == n && r.na.length == n &&
-             r.auctionId == w.auctionId + n && r.lockedId == w.lockedId + n
+  let one := gone.all oneV && newB.all oneB && r.nl.length == n && r.na.length == n && r.lockedId == w.lockedId + n &&
+             (if gen == 2 then r.auctionId == w.auctionId + n
+              else r.auctionId == w.auctionId + gone.length && r.lendAuctionId == w.lendAuctionId + newB.length)
+  -- generation 2: the type of the auction opened is the one the whitelisting selects; vaults are only ever sold by Dutch auction
+  let typeV (v : Vault) : Bool :=
+    (e.app v.app).dutch2 && (r.nl.filter (fun l => l.orig == v.id && !l.isBorrow)).all (fun l => (r.na.filter (fun a => a.locked == l.id)).all (·.dutch))
+  let typeB (b : Borrow) : Bool :=
+    let a := e.app b.app
+    (a.dutch2 || a.english2) &&
+    (r.nl.filter (fun l => l.orig == b.id && l.isBorrow)).all (fun l => (r.na.filter (fun x => x.locked == l.id)).all (fun x => x.dutch == a.dutch2))
+  let aucType := gen != 2 || (gone.all typeV && newB.all typeB)
   let assets := e.assets.map (·.id)
   let sumV (a : Nat) : Int := (gone.filter (fun v => assetOfVault v == a)).foldl (fun acc v => acc + v.amountIn) 0
   let sumB (a : Nat) : Int := (newB.filter (fun b => b.assetIn == a)).foldl (fun acc b => acc + b.amountIn) 0
   -- the pledged cTokens are burnt from the same pool account
   let sumC (a : Nat) : Int := (newB.filter (fun b => b.cAsset == a)).foldl (fun acc b => acc + b.amountIn) 0
   let exact := assets.all fun a =>
-    r.auctionBal.get a - w.auctionBal.get a == sumV a + sumB a &&
     w.vaultBal.get a - r.vaultBal.get a == sumV a &&
-    w.poolBal.get a - r.poolBal.get a == sumB a + sumC a
-  (if safe then ["safe_never_seized"] else []) ++ (if one then [] else ["one_auction"]) ++
-  (if exact then [] else ["seize_exact_collateral"]) ++ (if isAscending (w.vaults.map (·.id)) then [] else ["store_order"])
+    (if gen == 2 then
+      r.auctionBal.get a - w.auctionBal.get a == sumV a + sumB a &&
+      w.poolBal.get a - r.poolBal.get a == sumB a + sumC a
+     else
+      -- generation 1 sells off only a part of a borrow's collateral: between nothing and what the pool gave up
+      sumV a ≤ r.auctionBal.get a - w.auctionBal.get a &&
+      r.auctionBal.get a - w.auctionBal.get a ≤ sumV a + (w.poolBal.get a - r.poolBal.get a) &&
+      0 ≤ w.poolBal.get a - r.poolBal.get a)
+  -- generation 1 (D33): the pool gives up more of an asset than the seized borrows had pledged in it
+  let exceeds := gen == 1 && assets.any fun a => w.poolBal.get a - r.poolBal.get a > sumB a + sumC a
+  (if safe then ["safe_never_seized"] else []) ++ (if emodeOnly then ["gen1_msg_borrow_ignores_emode"] else []) ++
+  (if one then [] else ["one_auction"]) ++ (if aucType then [] else ["auction_type"]) ++
+  (if exact then [] else ["seize_exact_collateral"]) ++ (if exceeds then ["gen1_selloff_exceeds_collateral"] else []) ++
+  (if isAscending (w.vaults.map (·.id)) then [] else ["store_order"])
 
 /-- liquidation and its auction type enabled, controls off, prices active, and the position on the unsafe side -/
 def eligible (gen : Nat) (e : Env) (v : Vault) : Bool :=
@@ -248,14 +312,15 @@ def liveMonitors (st : St) (w : World) (r : Post) : List Track × List String :=
         | none => none
       let armed := match armed with
         | some x => some x
-        | none => if isStart then some (st.blk + i / st.batch, pre) else none
+        | none => if isStart then some (0, pre) else none   -- (positions covered by the earlier blocks of this sweep, prefix)
       -- an earlier position of ANOTHER app seized in this very block moves the list under a later per-app pass (generation 1)
       let foreignShift := (w.vaults.take i).any (fun x => x.app != v.app && !r.ids.contains x.id)
       let (armed, m1) := match armed with
-        | some (d, p) =>
-          if d == st.blk then
+        | some (cum, p) =>
+          -- `sweep_live_varbatch_partial`: this block's range is [cum, cum + batch) — with a constant batch that is block t + i / batch
+          if i < cum + st.batch then
             (none, if r.ids.contains v.id && !foreignShift then [name1] else [])
-          else (some (d, p), [])
+          else (some (cum + st.batch, p), [])
         | none => (none, [])
       go rest (i+1) ({ id := v.id, starts := starts, armed := armed, reported := t.reported || starts ≥ 3 } :: accT) (m1.reverse ++ m2.reverse ++ accM)
   go w.vaults 0 [] []
@@ -286,7 +351,7 @@ def handleBlock (st : St) (seq : String) (fs : List String) : St × List String 
       let sl := if outcome == "panic" && consistent then ["slice_bounds"] else
                 if outcome != "panic" && consistent &&
                    r.offsets.any (fun o => w.offsets.get? o.1 != some o.2 && o.2 > max w.counter w.borrows.length) then ["slice_bounds"] else []
-      let eff := if outcome == "panic" then [] else effectMonitors st.env w r
+      let eff := if outcome == "panic" then [] else effectMonitors st.gen false st.env w r
       let (tracks, live) := if outcome == "panic" then (st.tracks, [])
                             else liveMonitors { st with diverged := st.diverged || !diffs.isEmpty } w r
       -- ids are monotone and keys big-endian: a position that was not there after the previous block sorts after all seen so far
@@ -300,18 +365,16 @@ def handleBlock (st : St) (seq : String) (fs : List String) : St × List String 
     | _, _ => (st, [s!"BAD\t{seq}\tcannot parse block"])
   | [] => (st, [s!"BAD\t{seq}\tblock without =>"])
 
-def handleMsg (st : St) (seq : String) (a b : Nat) (fs : List String) : St × List String :=
+/-- a delivered message: `model` = the model's verdict on the parsed pre-state (`none` = rejected), `mons` = monitors on the REAL transition -/
+def handleMsgWith (st : St) (seq : String) (fs : List String) (model : World → Option World) (mons : World → Post → List String) :
+    St × List String :=
   let (preF, rest) := splitArrow fs
   match rest with
   | outcome :: postF =>
     match parsePre preF, parsePost postF with
     | some w, some r =>
-      -- ValidateBasic: zero ids are rejected before the handler
-      let model : Option World :=
-        if st.gen == 2 then (if b == 0 then none else msgLiquidateV2 st.env a b w)
-        else (if a == 0 || b == 0 then none else msgLiquidateVaultV1 st.env a b w)
       let diffs : List String :=
-        match model with
+        match model w with
         | none => if outcome == "ok" then [s!"DIFF\t{seq}\tmodel=err\timpl=ok"] else
                   (match diffPost (postOf w (fld preF "PT")) r with | some d => [s!"DIFF\t{seq}\trejected message changed state: {d}"] | none => [])
         | some w' =>
@@ -319,10 +382,32 @@ def handleMsg (st : St) (seq : String) (a b : Nat) (fs : List String) : St × Li
           match diffPost (postOf w' (fld preF "PT")) r with
           | some d => [s!"DIFF\t{seq}\t{d}"]
           | none => []
-      let mons := (effectMonitors st.env w r).map fun m => s!"MON\t{seq}\t{m}"
-      ({ st with diverged := st.diverged || !diffs.isEmpty }, diffs ++ mons)
+      let ms := (mons w r).map fun m => s!"MON\t{seq}\t{m}"
+      ({ st with diverged := st.diverged || !diffs.isEmpty }, diffs ++ ms)
     | _, _ => (st, [s!"BAD\t{seq}\tcannot parse msg"])
   | [] => (st, [s!"BAD\t{seq}\tmsg without =>"])
+
+def handleMsg (st : St) (seq : String) (a b : Nat) (fs : List String) : St × List String :=
+  -- ValidateBasic: zero ids are rejected before the handler
+  handleMsgWith st seq fs
+    (fun w => if st.gen == 2 then (if b == 0 then none else msgLiquidateV2K st.env a b w)
+              else (if a == 0 || b == 0 then none else msgLiquidateVaultV1 st.env a b w))
+    (fun w r => effectMonitors st.gen false st.env w r)
+
+/-- monitors of the two generation-2 messages that seize nobody: no vault, no borrow, no vault / pool custody may change;
+an accepted external liquidation opens exactly one locked vault (original id 0) and one Dutch auction over exactly `coll` -/
+def isolatedMonitors (ext : Bool) (asset : Nat) (coll : Int) (outcome : String) (w : World) (r : Post) : List String :=
+  let untouched := r.ids == w.vaults.map (·.id) && r.bl == (w.borrows.filter (·.liquidated)).map (·.id) &&
+                   r.vaultBal == w.vaultBal && r.poolBal == w.poolBal && r.counter == w.counter
+  let books :=
+    if ext && outcome == "ok" then
+      r.lockedId == w.lockedId + 1 && r.auctionId == w.auctionId + 1 &&
+      (match r.nl, r.na with
+       | [l], [a] => l.orig == 0 && !l.isBorrow && l.amountIn == coll && a.locked == l.id && a.amount == coll && a.asset == asset &&
+                     a.target == l.target && a.dutch && r.auctionBal.get asset - w.auctionBal.get asset == coll
+       | _, _ => false)
+    else r.lockedId == w.lockedId && r.auctionId == w.auctionId && r.nl.isEmpty && r.na.isEmpty && r.auctionBal == w.auctionBal
+  if untouched && books then [] else ["external_keeper_isolated"]
 
 def showR (o : Option Dec) : String := match o with | some d => toString d | none => "err"
 
@@ -335,6 +420,25 @@ def handle (st : St) (seq : String) (f : List String) : St × List String :=
     | none => (st, [s!"BAD\t{seq}\tenv"])
   | "liq.block" :: _h :: fs => handleBlock st seq fs
   | "liq.msg" :: a :: b :: fs => handleMsg st seq (nat! a) (nat! b) fs
+  | "liq.msgb" :: b :: fs =>
+    handleMsgWith st seq fs (fun w => if nat! b == 0 then none else msgLiquidateBorrowV1 st.env (nat! b) w)
+      (fun w r => effectMonitors 1 true st.env w r)
+  | "liq.ext" :: a :: ca :: da :: camt :: damt :: ub :: fs =>
+    let outcome := ((splitArrow fs).2.head?).getD ""
+    handleMsgWith st seq fs
+      (fun w => if nat! a == 0 then none else msgLiquidateExternalV2 st.env (nat! a) (nat! ca) (nat! da) (int! camt) (int! damt) (int! ub) w)
+      (fun w r => isolatedMonitors true (nat! ca) (int! camt) outcome w r)
+  | "liq.reserve" :: a :: asset :: dok :: amt :: ub :: fs =>
+    let outcome := ((splitArrow fs).2.head?).getD ""
+    handleMsgWith st seq fs
+      (fun w => if nat! a == 0 || nat! asset == 0 then none else msgAppReserveFunds st.env (nat! a) (nat! asset) (bool! dok) (int! amt) (int! ub) w)
+      (fun w r => isolatedMonitors false 0 0 outcome w r)
+  | ["liq.batch", n, res] =>
+    -- `validateLiquidationBatchSize`: a zero batch is rejected (the parameter store panics), anything else is stored
+    let ok := nat! n > 0
+    let d := if ok != (res == "ok") then [s!"DIFF	{seq}	batch {n}: model={if ok then "ok" else "rejected"} impl={res}"] else []
+    let m := if nat! n == 0 && res == "ok" then [s!"MON	{seq}	batch_validated"] else []
+    ({ st with batch := if res == "ok" then nat! n else st.batch }, d ++ m)
   | ["liq.slice.single", l, o, b, s1, e1, s2, e2, _] =>
     let m := sliceBoundsI (int! l) (int! o) (int! b)
     let d1 := if m != (int! s1, int! e1) then [s!"DIFF\t{seq}\tslice v1 model={m.1},{m.2} impl={s1},{e1}"] else []
